@@ -64,6 +64,9 @@ enum Tpl {
     T_E_GENERIC_STATIC, // generic class whose static initialiser instantiates the same specialisation
     T_DERIVED_LEAF,     // derived class that adds no reference field: its object owns another only through an inherited field
     T_E_DECL_ORDER,     // classes declared most-derived first (defect D22)
+    T_E_RESURRECT,      // a destructor stores 'this' in a static field; the field is used afterwards (defect D24)
+    T_E_GENERIC_BASE_ORDER,  // class derived from a generic instantiation whose template's base is declared last (defect D25)
+    T_E_LONG_CHAIN,     // a list of about ten thousand nodes built in a loop and dropped (defect D26) - rare, it costs seconds
     T_E_RECURSE,        // bounded recursion holding an object (with destructor) per frame, optionally failing at the bottom
     T_COUNT
 };
@@ -73,7 +76,7 @@ inline const char* tplName(int t) {
                               "static_assign", "loop_alloc", "destroy", "cycle_drop", "virtual", "box", "ret_while_dtor", "churn", "churn_d",
                               "self_cycle_live", "show_all", "static_cycle", "drop_var", "keep_chain", "diamond_generic", "method_churn",
                               "e_div0", "e_mod0", "e_longmin_mod", "e_index", "e_null_field", "e_null_call", "e_deep", "e_voverload", "e_ctor_err",
-                              "e_fieldinit_err", "e_int_extreme", "e_literal_range", "e_cast", "e_neg_array", "e_destroy_twice", "e_super_call", "e_dtor_err", "qubit_owner_in_garbage_cycle", "e_generic_static", "derived_without_own_reference_fields", "e_declared_before_base", "e_recurse"};
+                              "e_fieldinit_err", "e_int_extreme", "e_literal_range", "e_cast", "e_neg_array", "e_destroy_twice", "e_super_call", "e_dtor_err", "qubit_owner_in_garbage_cycle", "e_generic_static", "derived_without_own_reference_fields", "e_declared_before_base", "e_destructor_stores_this", "e_generic_base_declared_later", "e_long_chain", "e_recurse"};
     return (t >= 0 && t < T_COUNT) ? n[t] : "?";
 }
 
@@ -215,6 +218,12 @@ inline std::string preamble(const Plan& p) {
             "class Ord3 extends Ord2 { public string s3 = \"c\"; public constructor() -> Ord3 { super(); return this; } public override function who() -> int { return 30 + super.who(); } }\n"
             "class Ord2 extends Ord1 { public N held = F.mk(77); public constructor() -> Ord2 { super(); return this; } public virtual override function who() -> int { return 20 + this.x; } }\n"
             "class Ord1 { public int x = 1; public int z = 3; public constructor() -> Ord1 { return this; } public virtual function who() -> int { return this.x; } public function g() -> int { return this.x + this.z; } }\n"
+            "static class ZK { public static Zb held = null; public static int seen = 0; }\n"
+            "class Zb { public int id; public N kept; public constructor(int id) -> Zb { this.id = id; this.kept = F.mk(id + 1); return this; } public destructor() -> void { ZK.held = this; ZK.seen = ZK.seen + 1; echo(\"~Zb \" + this.id); } public function who() -> int { return this.id; } }\n"
+            "class OgD extends OgG<int> { public int d = 4; public constructor() -> OgD { super(); return this; } public function all() -> int { return this.a + this.a3 + this.g + this.d; } }\n"
+            "class OgG<T> extends OgA { public int g = 2; public constructor() -> OgG<T> { super(); return this; } }\n"
+            "class OgA { public int a = 1; public int a2 = 10; public int a3 = 20; public constructor() -> OgA { return this; } }\n"
+            "class LN { public int v; public LN next; public constructor(int v, LN n) -> LN { this.v = v; this.next = n; return this; } }\n"
             "class BadInit {\n"
             "    public N held = F.mk(56);\n"
             "    public int q = F.boom(3);\n"
@@ -319,6 +328,15 @@ inline std::string renderStmt(const Plan& p, const Stmt& st, int index) {
             std::string cls = st.a % 3 == 0 ? "Ord3" : st.a % 3 == 1 ? "Ord2" : "Ord1";
             return "    Ord1 " + v + " = new " + cls + "();\n    echo(" + v + ".g());\n    echo(" + v + ".who());\n";
         }
+        case T_E_RESURRECT: {
+            std::string v = "zb" + I(index);
+            return "    { Zb " + v + " = new Zb(" + I(id) + "); }\n    echo(ZK.seen);\n    echo(ZK.held == null);\n    echo(ZK.held.who());\n    echo(F.churn(" + I(k) + "));\n    ZK.held = null;\n";
+        }
+        case T_E_GENERIC_BASE_ORDER: return "    OgD og" + I(index) + " = new OgD();\n    echo(og" + I(index) + ".all());\n    echo(og" + I(index) + ".a2);\n";
+        case T_E_LONG_CHAIN: {
+            std::string v = "ln" + I(index);
+            return "    LN " + v + " = null;\n    for (int li" + I(index) + " = 0; li" + I(index) + " < " + I(9000 + 500 * (st.a % 5)) + "; li" + I(index) + " = li" + I(index) + " + 1) { " + v + " = new LN(li" + I(index) + ", " + v + "); }\n    echo(" + v + ".v);\n    " + v + " = null;\n    echo(\"chain dropped\");\n";
+        }
         case T_E_RECURSE: return "    echo(rec(" + I(3 + (st.a % 12) * 4) + ", " + I(st.b % 3 == 0 ? 1 : 0) + "));\n";
         case T_E_GENERIC_STATIC: {
             std::string ty = st.a % 2 ? "string" : "int";
@@ -371,7 +389,7 @@ inline Plan generate(sim::Rng& g, bool edge, bool allowDtorErr, bool allowQcycle
                                  T_LOOP_ALLOC, T_DESTROY, T_CYCLE_DROP, T_VIRTUAL, T_BOX, T_RET_WHILE_DTOR, T_CHURN, T_CHURN_D, T_SELF_CYCLE_LIVE, T_SHOW_ALL,
                                  T_STATIC_CYCLE, T_DROP_VAR, T_KEEP_CHAIN, T_DIAMOND_GENERIC, T_METHOD_CHURN, T_DERIVED_LEAF};
     static const int edgeTpls[] = {T_E_DIV0, T_E_MOD0, T_E_LONGMIN_MOD, T_E_INDEX, T_E_NULL_FIELD, T_E_NULL_CALL, T_E_DEEP, T_E_VOVERLOAD, T_E_CTOR_ERR, T_E_FIELDINIT_ERR,
-                                   T_E_INT_EXTREME, T_E_LITERAL_RANGE, T_E_CAST, T_E_NEG_ARRAY, T_E_DESTROY_TWICE, T_E_SUPER_CALL, T_E_GENERIC_STATIC, T_E_RECURSE, T_E_DECL_ORDER};
+                                   T_E_INT_EXTREME, T_E_LITERAL_RANGE, T_E_CAST, T_E_NEG_ARRAY, T_E_DESTROY_TWICE, T_E_SUPER_CALL, T_E_GENERIC_STATIC, T_E_RECURSE, T_E_DECL_ORDER, T_E_RESURRECT, T_E_GENERIC_BASE_ORDER};
     double edgeShare = edge ? 0.35 : 0.0;
     for (int i = 0; i < n; ++i) {
         Stmt st;
@@ -392,6 +410,12 @@ inline Plan generate(sim::Rng& g, bool edge, bool allowDtorErr, bool allowQcycle
             if (g.chance(0.4)) p.main.push_back(st);
             else p.main.insert(p.main.begin() + (long)g.below(p.main.size() + 1), st);
         }
+    }
+    if (edge && g.chance(0.0012)) {
+        Stmt st;
+        st.tpl = T_E_LONG_CHAIN;
+        st.a = (int)g.below(12);
+        p.main.insert(p.main.begin() + (long)g.below(p.main.size() + 1), st);
     }
     if (allowDtorErr && g.chance(0.5)) {
         Stmt st;
